@@ -348,11 +348,14 @@ fn mangle(s: &str) -> String {
     s.replace('-', "_")
 }
 
-const VALUES: [&str; 8] = [
+const VALUES: [&str; 11] = [
     "val-int{k} INTEGER ::= 5",
     "val-bool{k} BOOLEAN ::= TRUE",
     "val-str{k} UTF8String ::= \"plain\"",
     "val-quote{k} UTF8String ::= \"say \"\"hi\"\" }{ ]\"",
+    "val-qparen{k} UTF8String ::= \"see \"\"(a\"\" then b\"",
+    "val-qbrace{k} UTF8String ::= \"\"\"{\"\"[\"\"(\"",
+    "val-backslash{k} UTF8String ::= \"a\\\"\"(b\\\\\"",
     "val-oct{k} OCTET STRING ::= 'AB'H",
     "val-seq{k} Ref-Seq ::= { x TRUE }",
     "val-null{k} NULL ::= NULL",
